@@ -21,26 +21,26 @@ Print Assumptions C02_how_total.
 (** * the property at full strength: whenever PySpark accepts the program (a chain of joins followed by an optional
     select / where), the implementation returns PySpark's column list and PySpark's bag of rows *)
 Definition C02_full : Prop :=
-  forall L lctes steps f, nodupb (cols L) = true -> sp_run L steps f <> None ->
-    fr_eqb (m_run gen_cfg L lctes steps f) (sp_run L steps f) = true.
+  forall L lbase lctes steps f, nodupb (cols L) = true -> sp_run L lbase steps f <> None ->
+    fr_eqb (m_run gen_cfg L lbase lctes steps f) (sp_run L lbase steps f) = true.
 
 (** what is proved: for chains of joins inside [chain_dom] -- documented spellings; not a right outer join; a condition
     is given unless the kind is inner/cross; name joins whose key is (once) the first table's column on the left and a column
     of the right side; no earlier table's same-named column missing from the select list; ON conditions whose references
     denote their table (independent inputs, or references through aliases) -- the implementation builds literally PySpark's
     join (same kinds, same ON, same select list), hence equal column lists and equal rows for EVERY content of the tables *)
-Theorem C02_partial : forall L lctes steps,
-  nodupb (cols L) = true -> chain_dom gen_cfg (init_st L lctes) steps = true ->
-  m_run gen_cfg L lctes steps FNone = sp_run L steps FNone.
+Theorem C02_partial : forall L lbase lctes steps,
+  nodupb (cols L) = true -> chain_dom gen_cfg (init_st L lbase lctes) steps = true ->
+  m_run gen_cfg L lbase lctes steps FNone = sp_run L lbase steps FNone.
 Proof. exact (run_chain_ok gen_cfg gen_how_ok gen_none_ok). Qed.
 Print Assumptions C02_partial.
 
 (** one join: PySpark's columns, and the rows are the select list applied to the SQL join (C02.Join.join) of the two inputs
     under the three-valued ON *)
-Theorem C02_single_join : forall L lctes x,
-  nodupb (cols L) = true -> jstep_dom (init_st L lctes) x = true ->
-  m_run gen_cfg L lctes [x] FNone = sp_run L [x] FNone
-  /\ forall fr, m_run gen_cfg L lctes [x] FNone = Some fr ->
+Theorem C02_single_join : forall L lbase lctes x,
+  nodupb (cols L) = true -> jstep_dom (init_st L lbase lctes) x = true ->
+  m_run gen_cfg L lbase lctes [x] FNone = sp_run L lbase [x] FNone
+  /\ forall fr, m_run gen_cfg L lbase lctes [x] FNone = Some fr ->
        exists k cond sel,
          cols fr = map snd sel /\
          rows fr = map (proj (if is_semi_anti k then map (qn 0) (cols L) else map (qn 0) (cols L) ++ map (qn 1) (cols (j_right x))) sel)
@@ -96,18 +96,18 @@ Definition ctC (t : nat) := [mkCm 5 6 (Some t)].
 Definition ctD (t : nat) := [mkCm 7 8 (Some t)].
 
 Example C02_domain_nonempty :
-  chain_dom gen_cfg (init_st exA ctA)
-    [mkStep exB (ctB 1) (OnNames ["k"]) "left_outer" false;
-     mkStep exD (ctD 2) (OnExprs [UBin Eq (UCol (RDf 1 3 false "v")) (UCol (RDf 2 7 false "k2"))]) "inner" false;
-     mkStep exC (ctC 3) (OnNames ["k"]) "semi" false] = true
-  /\ chain_dom gen_cfg (init_st exA ctA) [mkStep exB (ctB 1) (OnNames ["k"; "v"]) "full" false] = true
-  /\ chain_dom gen_cfg (init_st exA ctA) [mkStep exB (ctB 1) OnNone "cross" false] = true.
+  chain_dom gen_cfg (init_st exA 1 ctA)
+    [mkStep exB 2 (ctB 1) (OnNames ["k"]) "left_outer" false;
+     mkStep exD 4 (ctD 2) (OnExprs [UBin Eq (UCol (RDf 1 3 false "v")) (UCol (RDf 2 7 false "k2"))]) "inner" false;
+     mkStep exC 3 (ctC 3) (OnNames ["k"]) "semi" false] = true
+  /\ chain_dom gen_cfg (init_st exA 1 ctA) [mkStep exB 2 (ctB 1) (OnNames ["k"; "v"]) "full" false] = true
+  /\ chain_dom gen_cfg (init_st exA 1 ctA) [mkStep exB 2 (ctB 1) OnNone "cross" false] = true.
 Proof. vm_compute. repeat split; reflexivity. Qed.
 
 (** * refutations of the full statement on the faithful model (each is replayed on the implementation by the check) *)
 Definition refutes (L : frame) (lctes : list cmeta) (steps : list jstep) (f : fin) : Prop :=
-  nodupb (cols L) = true /\ sp_run L steps f <> None /\
-  fr_eqb (m_run gen_cfg L lctes steps f) (sp_run L steps f) = false.
+  nodupb (cols L) = true /\ sp_run L 1 steps f <> None /\
+  fr_eqb (m_run gen_cfg L 1 lctes steps f) (sp_run L 1 steps f) = false.
 
 Ltac refute := unfold refutes; split; [reflexivity | split; [vm_compute; discriminate | vm_compute; reflexivity]].
 
@@ -115,45 +115,45 @@ Ltac refute := unfold refutes; split; [reflexivity | split; [vm_compute; discrim
 Theorem C02_refuted_right_name_join : C02_full -> False.
 Proof.
   intro H.
-  assert (R : refutes exA ctA [mkStep exB (ctB 1) (OnNames ["k"]) "right" false] FNone) by refute.
-  destruct R as [R1 [R2 R3]]. rewrite (H _ _ _ _ R1 R2) in R3. discriminate.
+  assert (R : refutes exA ctA [mkStep exB 2 (ctB 1) (OnNames ["k"]) "right" false] FNone) by refute.
+  destruct R as [R1 [R2 R3]]. rewrite (H _ _ _ _ _ R1 R2) in R3. discriminate.
 Qed.
 
 Theorem C02_refuted_right_expr_join :
-  refutes exA ctA [mkStep exB (ctB 1) (OnExprs [UBin Eq (UCol (RDf 0 1 false "k")) (UCol (RDf 1 3 false "k"))]) "right_outer" false] FNone.
+  refutes exA ctA [mkStep exB 2 (ctB 1) (OnExprs [UBin Eq (UCol (RDf 0 1 false "k")) (UCol (RDf 1 3 false "k"))]) "right_outer" false] FNone.
 Proof. refute. Qed.
 
 (** no condition and a kind other than inner/cross: executed as a product *)
-Theorem C02_refuted_on_none_semi : refutes exA ctA [mkStep exB (ctB 1) OnNone "semi" false] FNone.
+Theorem C02_refuted_on_none_semi : refutes exA ctA [mkStep exB 2 (ctB 1) OnNone "semi" false] FNone.
 Proof. refute. Qed.
 Theorem C02_refuted_on_none_left_empty_right :
-  refutes exA ctA [mkStep (mkFrame ["k"; "v"; "w"] []) (ctB 1) OnNone "left" false] FNone.
+  refutes exA ctA [mkStep (mkFrame ["k"; "v"; "w"] []) 2 (ctB 1) OnNone "left" false] FNone.
 Proof. refute. Qed.
 
 (** spellings Spark lower-cases *)
-Theorem C02_refuted_upper_case_full : refutes exA ctA [mkStep exR (ctC 1) (OnNames ["k"]) "FULL" false] FNone.
+Theorem C02_refuted_upper_case_full : refutes exA ctA [mkStep exR 3 (ctC 1) (OnNames ["k"]) "FULL" false] FNone.
 Proof. refute. Qed.
-Theorem C02_refuted_upper_case_left_semi : refutes exA ctA [mkStep exB (ctB 1) (OnNames ["k"]) "LEFT_SEMI" false] FNone.
+Theorem C02_refuted_upper_case_left_semi : refutes exA ctA [mkStep exB 2 (ctB 1) (OnNames ["k"]) "LEFT_SEMI" false] FNone.
 Proof. refute. Qed.
 
 (** the key of a full outer name join is the COALESCE only in the join's own select list *)
 Theorem C02_refuted_full_then_select_key :
-  refutes exA ctA [mkStep exR (ctC 1) (OnNames ["k"]) "full" false] (FSelect [(UCol (RName "k"), "k"); (UCol (RName "u"), "u")]).
+  refutes exA ctA [mkStep exR 3 (ctC 1) (OnNames ["k"]) "full" false] (FSelect [(UCol (RName "k"), "k"); (UCol (RName "u"), "u")]).
 Proof. refute. Qed.
 Theorem C02_refuted_full_then_name_join :
-  refutes exA ctA [mkStep exR (ctC 1) (OnNames ["k"]) "full" false; mkStep exX (ctB 2) (OnNames ["k"]) "full" false] FNone.
+  refutes exA ctA [mkStep exR 3 (ctC 1) (OnNames ["k"]) "full" false; mkStep exX 2 (ctB 2) (OnNames ["k"]) "full" false] FNone.
 Proof. refute. Qed.
 
 (** a right join later in a chain resolves left-to-right: the key is the left side's *)
 Theorem C02_refuted_right_join_not_first :
-  refutes exA ctA [mkStep exD (ctD 1) (OnExprs [UBin Eq (UCol (RDf 0 1 false "k")) (UCol (RDf 1 7 false "k2"))]) "left" false;
-                   mkStep (mkFrame ["k"; "u"] [[VInt 5; VInt 7]]) (ctC 2) (OnNames ["k"]) "right" false] FNone.
+  refutes exA ctA [mkStep exD 4 (ctD 1) (OnExprs [UBin Eq (UCol (RDf 0 1 false "k")) (UCol (RDf 1 7 false "k2"))]) "left" false;
+                   mkStep (mkFrame ["k"; "u"] [[VInt 5; VInt 7]]) 3 (ctC 2) (OnNames ["k"]) "right" false] FNone.
 Proof. refute. Qed.
 
 (** a column dropped by a name join shifts the position-based resolution of a later table's same-named column *)
 Theorem C02_refuted_dropped_key_shifts :
-  refutes exA ctA [mkStep exB (ctB 1) (OnNames ["k"]) "left" false;
-                   mkStep exC (ctC 2) (OnExprs [UBin Eq (UCol (RDf 0 1 false "k")) (UCol (RDf 2 5 false "k"))]) "left" false] FNone.
+  refutes exA ctA [mkStep exB 2 (ctB 1) (OnNames ["k"]) "left" false;
+                   mkStep exC 3 (ctC 2) (OnExprs [UBin Eq (UCol (RDf 0 1 false "k")) (UCol (RDf 2 5 false "k"))]) "left" false] FNone.
 Proof. refute. Qed.
 Print Assumptions C02_refuted_right_name_join.
 Print Assumptions C02_refuted_dropped_key_shifts.
